@@ -37,6 +37,10 @@ CHECKS = {
    technique="fault enumeration on archive entries as storage: every single-byte fault in .SF, signature value, signed attributes and signer id of v1-signed APKs, archive rewritten, real APK code asked for the certificate; pre-condition re-checked by an independent verifier",
    text="Tamper half of the property. Enumerates offset x value per region (quick: 2 values, thorough: all 255, capped per worker). The positive half is only a pre-condition (independent cryptography check on each pristine block).",
    note="Trusted: asn1crypto for locating regions, cryptography for the independent pre-condition, own X500 canonical-name comparison for the 'same certificate reference' guard."),
+ "C37": dict(engine="fssim", category="exploration", ref="4.8",
+   technique="deterministic simulation of the file system: the export command runs against an in-memory POSIX-like file system (os/open/input rebound), every mkdir/create is an event checked against the output directory; seeded ENOSPC/EACCES/EEXIST faults, pre-existing contents and scripted stdin",
+   text="Seeded search over adversarial class/method names (incl. two cooperating names) x environment x file-system faults; minimised violations are re-run against the real file system. Sampling, not proof.",
+   note="Trusted: SimFS path resolution (component-wise, no symlinks); gen/dexasm.py. Only export_apps_to_format is driven; jar/external decompilers are out of reach offline."),
 }
 
 def build():
@@ -54,7 +58,7 @@ def build():
             "technique": c["technique"],
         })
     na = [{"property_id": k, "reason": "not a simulation target: " + v} for k, v in sorted(NA.items()) if k not in CHECKS]
-    pending = [p for p in ("C09", "C16", "C17", "C22", "C32", "C35", "C37") if p not in CHECKS]
+    pending = [p for p in ("C09", "C16", "C17", "C22", "C32", "C35", "C36", "C37") if p not in CHECKS]
     for p in pending:
         na.append({"property_id": p, "reason": "claimed in DESIGN.md but its check is not built yet in this commit; no claim is made until the check is registered"})
     na.sort(key=lambda e: e["property_id"])
@@ -75,6 +79,8 @@ def build():
              "kind_free_text": "child interpreters whose hash seed, identity-hash layout and decompilation history are seeded simulated variables"},
             {"name": "iosim", "path": "simkit/iosim.py", "serves_properties": ["C35", "C09", "C32"],
              "kind_free_text": "recording byte-store seam (io shim / archive entries) with storage-fault injection and a virtual step clock"},
+            {"name": "fssim", "path": "simkit/fssim.py", "serves_properties": ["C37"],
+             "kind_free_text": "in-memory file system behind os/open/input with fault injection; every mutating call is an event"},
             {"name": "histsim", "path": "simkit/driver.py", "serves_properties": ["C16", "C17"],
              "kind_free_text": "seeded API-call history search against a reference model, ddmin minimisation, exact replay"},
         ],
